@@ -31,7 +31,7 @@ ASSUMPTIONS = [
     "the legend's 'a->b:' prefix wording is not judged, only the <year>:<METHOD> tokens in order",
 ]
 
-HIST = gen.GenCfg(min_steps=3, max_steps=12, max_exchanges=3, max_holders=2, bulk_prob=0.06)
+HIST = gen.GenCfg(min_steps=3, max_steps=12, max_exchanges=3, max_holders=2, bulk_prob=0.06, fiat_columns=True)
 COUNTRIES = ("us", "us", "es", "ie", "jp", "generic")
 
 
